@@ -29,6 +29,15 @@ var urlAlphabet = []string{
 	"http://a:80/x?q=1", // u5: same identity as u0 (query)
 	"http://a:8080/x",   // u6: differs in port only
 	"http://c:80/x",     // u7
+	"http://sa:80/x",    // u8: differs from u2 in scheme AND host, yet scheme+host+path concatenated without separators coincide ("http"+"sa:80" = "https"+"a:80")
+}
+
+// urlsFor: the URLs of a tier's alphabet (indices into urlAlphabet).
+func urlsFor(tier string) []int {
+	if tier == "thorough" {
+		return []int{0, 1, 2, 3, 4, 5, 6, 7, 8}
+	}
+	return []int{0, 1, 2, 3, 4, 5, 8}
 }
 
 func mustURL(s string) *url.URL {
@@ -37,6 +46,14 @@ func mustURL(s string) *url.URL {
 		panic(err)
 	}
 	return u
+}
+
+// reuse: the caller overwrites the url.URL value it passed to an administration call that has returned (the
+// library must have kept a copy); returns a fresh, equal URL for the harness's own bookkeeping.
+func reuse(u *url.URL) *url.URL {
+	c := mustURL(u.String())
+	lib.ReuseURL(u)
+	return c
 }
 
 func identity(u *url.URL) string { return u.Scheme + "://" + u.Host + u.Path }
@@ -206,10 +223,7 @@ type opDesc struct {
 }
 
 func alphabet(v variant, tier string) ([]string, []opDesc) {
-	nurl := 6
-	if tier == "thorough" {
-		nurl = len(urlAlphabet)
-	}
+	urls := urlsFor(tier)
 	names := []string{"Req", "ReqRewriting"}
 	descs := []opDesc{{0, 0, 0}, {1, 0, 0}}
 	if v.sticky {
@@ -240,17 +254,17 @@ func alphabet(v variant, tier string) ([]string, []opDesc) {
 	// ... also when the refused option follows one that would have been accepted (drain, then an invalid weight)
 	names = append(names, "UpsertRefused(u0,w=0,w=-1)")
 	descs = append(descs, opDesc{9, 0, 0})
-	for u := 0; u < nurl; u++ {
+	for _, u := range urls {
 		names = append(names, fmt.Sprintf("Upsert(u%d)", u))
 		descs = append(descs, opDesc{2, u, -1})
 	}
-	for u := 0; u < nurl; u++ {
+	for _, u := range urls {
 		names = append(names, fmt.Sprintf("Remove(u%d)", u))
 		descs = append(descs, opDesc{3, u, 0})
 	}
 	for _, w := range []int{0, 2} {
-		for u := 0; u < nurl; u++ {
-			if u >= 4 && u <= 5 && w == 2 && tier != "thorough" {
+		for _, u := range urls {
+			if (u >= 4 && u <= 5 || u == 8) && w == 2 && tier != "thorough" {
 				continue
 			}
 			names = append(names, fmt.Sprintf("Upsert(u%d,w=%d)", u, w))
@@ -291,6 +305,7 @@ func model(v variant, tier string, depth int) *lib.Model[*sys] {
 			s.meterFails = true
 			s.upserting = identity(u)
 			err := s.front().UpsertServer(u)
+			u = reuse(u)
 			s.upserting = ""
 			s.meterFails = false
 			if err == nil {
@@ -305,6 +320,7 @@ func model(v variant, tier string, depth int) *lib.Model[*sys] {
 				opts = []roundrobin.ServerOption{roundrobin.Weight(d.weight), roundrobin.Weight(-1)}
 			}
 			err := s.front().UpsertServer(u, opts...)
+			u = reuse(u)
 			s.upserting = ""
 			if err == nil {
 				return fmt.Sprintf("ACCEPTED/known=%v", known)
@@ -317,6 +333,7 @@ func model(v variant, tier string, depth int) *lib.Model[*sys] {
 			}
 			s.upserting = identity(u)
 			err := s.front().UpsertServer(u, opts...)
+			u = reuse(u)
 			s.upserting = ""
 			if err == nil {
 				s.ref.upsert(u, d.weight)
@@ -324,6 +341,7 @@ func model(v variant, tier string, depth int) *lib.Model[*sys] {
 			return fmt.Sprint(err)
 		default:
 			err := s.front().RemoveServer(u)
+			u = reuse(u)
 			known := s.ref.find(identity(u)) >= 0
 			if err == nil {
 				s.ref.remove(u)
